@@ -37,6 +37,11 @@ pub struct Case {
     pub init_fee: Dec,
     pub init_threshold: Dec,
     pub init_keeper: Dec,
+    /// denominations the dispatcher under test is instantiated with (arbitrary strings, possibly empty)
+    #[serde(default)]
+    pub init_st_denom: Option<String>,
+    #[serde(default)]
+    pub init_b_denom: Option<String>,
     pub steps: Vec<Step>,
 }
 
@@ -87,9 +92,11 @@ pub fn strategy() -> BoxedStrategy<Case> {
         dec_class(),
         dec_class(),
         dec_class(),
+        proptest::option::weighted(0.5, prop_oneof![2 => Just(String::new()), 2 => denom()]),
+        proptest::option::weighted(0.3, denom()),
         proptest::collection::vec((prop_oneof![9 => Just(true), 1 => Just(false)], msg_strategy()).prop_map(|(by_owner, msg)| Step { by_owner, msg }), 1..14),
     )
-        .prop_map(|(init_fee, init_threshold, init_keeper, steps)| Case { init_fee, init_threshold, init_keeper, steps })
+        .prop_map(|(init_fee, init_threshold, init_keeper, init_st_denom, init_b_denom, steps)| Case { init_fee, init_threshold, init_keeper, init_st_denom, init_b_denom, steps })
         .boxed()
 }
 
@@ -172,6 +179,12 @@ impl Prop for C20 {
             }
             let mut di = dispatcher_init(&cfg);
             di.krp_keeper_rate = c.init_keeper.dec();
+            if let Some(d) = &c.init_st_denom {
+                di.stsei_reward_denom = d.clone();
+            }
+            if let Some(d) = &c.init_b_denom {
+                di.bsei_reward_denom = d.clone();
+            }
             let before = w.clone();
             let r = w.instantiate(Kind::Dispatcher, OWNER, "dispatcher2", &di);
             if c.init_keeper.atomics() > ONE {
@@ -204,16 +217,22 @@ impl Prop for C20 {
             stsei: Some(STSEI.into()),
             airdrop: Some(AIRDROP.into()),
         };
+        let use_d2 = c.init_keeper.atomics() <= ONE && (c.init_st_denom.is_some() || c.init_b_denom.is_some());
+        let disp_addr: &str = if use_d2 { "dispatcher2" } else { DISP };
+        let st_denom0: String = if use_d2 { c.init_st_denom.clone().unwrap_or(USEI.into()) } else { USEI.into() };
+        if use_d2 {
+            out.label("dispatcher_with_generated_denoms");
+        }
         let mut disp = basset::dispatcher::ConfigResponse {
             owner: OWNER.into(),
             hub_contract: HUB.into(),
             bsei_reward_contract: REWARD.into(),
-            stsei_reward_denom: USEI.into(),
-            bsei_reward_denom: KUSD.into(),
+            stsei_reward_denom: st_denom0.clone(),
+            bsei_reward_denom: if use_d2 { c.init_b_denom.clone().unwrap_or(KUSD.into()) } else { KUSD.into() },
             krp_keeper_address: KEEPER.into(),
-            krp_keeper_rate: cfg.keeper_rate.dec(),
+            krp_keeper_rate: if use_d2 { c.init_keeper.dec() } else { cfg.keeper_rate.dec() },
             swap_contract: SWAP.into(),
-            swap_denoms: vec![USEI.into(), KUSD.into(), UATOM.into()],
+            swap_denoms: vec![USEI.into(), KUSD.into(), UATOM.into(), UIBC.into()],
             oracle_contract: ORACLE.into(),
         };
         let mut rew = basset::reward::ConfigResponse { hub_contract: HUB.into(), reward_denom: KUSD.into(), owner: OWNER.into(), swap_contract: SWAP.into() };
@@ -307,7 +326,7 @@ impl Prop for C20 {
                         }
                     }
                     (
-                        w.tx(sender, DISP, &DExec::UpdateConfig { hub_contract: h.clone(), bsei_reward_contract: reward.clone(), stsei_reward_denom: st_denom.clone(), bsei_reward_denom: b_denom.clone(), krp_keeper_address: keeper.clone(), krp_keeper_rate: rate.map(|d| d.dec()) }, &[]),
+                        w.tx(sender, disp_addr, &DExec::UpdateConfig { hub_contract: h.clone(), bsei_reward_contract: reward.clone(), stsei_reward_denom: st_denom.clone(), bsei_reward_denom: b_denom.clone(), krp_keeper_address: keeper.clone(), krp_keeper_rate: rate.map(|d| d.dec()) }, &[]),
                         ok,
                     )
                 }
@@ -319,21 +338,21 @@ impl Prop for C20 {
                             d2.swap_denoms.retain(|x| x != denom);
                         }
                     }
-                    (w.tx(sender, DISP, &DExec::UpdateSwapDenom { swap_denom: denom.clone(), is_add: *add }, &[]), st.by_owner)
+                    (w.tx(sender, disp_addr, &DExec::UpdateSwapDenom { swap_denom: denom.clone(), is_add: *add }, &[]), st.by_owner)
                 }
                 Msg::DispSwapContract { addr } => {
                     let ok = st.by_owner && canon_ok(addr);
                     if ok {
                         d2.swap_contract = addr.clone();
                     }
-                    (w.tx(sender, DISP, &DExec::UpdateSwapContract { swap_contract: addr.clone() }, &[]), ok)
+                    (w.tx(sender, disp_addr, &DExec::UpdateSwapContract { swap_contract: addr.clone() }, &[]), ok)
                 }
                 Msg::DispOracle { addr } => {
                     let ok = st.by_owner && canon_ok(addr);
                     if ok {
                         d2.oracle_contract = addr.clone();
                     }
-                    (w.tx(sender, DISP, &DExec::UpdateOracleContract { oracle_contract: addr.clone() }, &[]), ok)
+                    (w.tx(sender, disp_addr, &DExec::UpdateOracleContract { oracle_contract: addr.clone() }, &[]), ok)
                 }
                 Msg::RewardConfig { hub: h, reward_denom, swap } => {
                     let present = [h.is_some(), reward_denom.is_some(), swap.is_some()];
@@ -407,12 +426,12 @@ impl Prop for C20 {
                 out.fail(v("hub-config-differs-from-model", format!("after step {} ({:?}): Config {:?}, reference {:?}", i, st.msg, hc, hub)));
                 return out;
             }
-            let dc: basset::dispatcher::ConfigResponse = w.query(DISP, &DQuery::Config {}).unwrap_or_else(|e| qfail("dispatcher Config", e));
+            let dc: basset::dispatcher::ConfigResponse = w.query(disp_addr, &DQuery::Config {}).unwrap_or_else(|e| qfail("dispatcher Config", e));
             if dc != disp {
                 out.fail(v("dispatcher-config-differs-from-model", format!("after step {} ({:?}): Config {:?}, reference {:?}", i, st.msg, dc, disp)));
                 return out;
             }
-            if dc.krp_keeper_rate > Decimal::one() || dc.stsei_reward_denom != USEI {
+            if dc.krp_keeper_rate > Decimal::one() || dc.stsei_reward_denom != st_denom0 {
                 out.fail(v("dispatcher-parameter-out-of-range", format!("after step {}: {:?}", i, dc)));
                 return out;
             }
